@@ -167,7 +167,16 @@ def inject(d, fault, pick, spec):
         if not cands:
             return None
         kind, dd, depth, group, present = cands[pick % len(cands)]
-        other = [k for k in group if k != present][(pick // 7) % (len(group) - 1)]
+        others = [k for k in group if k != present]
+        if len(group) >= 3 and (pick // 3) % 2 == 1:
+            # neither of the two spellings is the one that is already there (in particular not the reference spelling)
+            a1 = others[(pick // 7) % len(others)]
+            a2 = [k for k in others if k != a1][(pick // 11) % (len(others) - 1)]
+            val = dd.pop(present)
+            dd[a1] = val
+            dd[a2] = copy.deepcopy(val)
+            return "aliases %r and %r together (without %r) in %s" % (a1, a2, present, kind), depth, False
+        other = others[(pick // 7) % (len(group) - 1)]
         dd[other] = copy.deepcopy(dd[present])
         return "aliases %r and %r together in %s" % (present, other, kind), depth, False
     if fault == "missing-mandatory":
